@@ -20,9 +20,19 @@ RiskDef == [t \in TokensDef |->
 Fn(w, u, d, x) == [t \in TokensDef |-> CASE t = "WETH" -> w [] t = "USDT" -> u [] t = "DAI" -> d [] t = "XTK" -> x]
 
 (* rows: indices never decrease; WETH price falls so that health factors cross 1 and 0.95 *)
+(* rows on the edges of the liquidation rule (liquidation-focused configurations only): with 2 WETH as collateral (threshold 0.825)
+   against 1500 USDT the health factor is 0.0011 x the WETH price - just below / above 1 and just above / below 0.95 *)
+EdgeRow(p) == [px |-> Fn(p, One, One, D(2, 1)), li |-> Fn(One, One, One, One), bi |-> Fn(One, One, One, One)]
+EdgeRows == << EdgeRow(D(9090910, 10000)),      \* HF 1.0000001   : no liquidation
+               EdgeRow(D(9090907, 10000)),      \* HF 0.99999977  : liquidated, close factor 1/2
+               EdgeRow(D(8636365, 10000)),      \* HF 0.95000015  : close factor 1/2
+               EdgeRow(D(8636363, 10000)) >>    \* HF 0.94999993  : close factor 1
+EdgeIdx == 2 .. (1 + Len(EdgeRows))             \* the row table is the same in every configuration; only the liquidation-focused
+                                                \* configurations (Focus = 1) move to an edge row
 RowsDef ==
-  << [px |-> Fn(D(1000, 1), One, One, D(2, 1)),       li |-> Fn(One, One, One, One),                  bi |-> Fn(One, One, One, One)],
-     [px |-> Fn(D(1000, 1), One, One, D(2, 1)),       li |-> Fn(D(5, 4), One, D(5, 4), One),          bi |-> Fn(D(2, 1), D(5, 4), One, One)],
+  << [px |-> Fn(D(1000, 1), One, One, D(2, 1)),       li |-> Fn(One, One, One, One),                  bi |-> Fn(One, One, One, One)] >>
+  \o EdgeRows \o
+  << [px |-> Fn(D(1000, 1), One, One, D(2, 1)),       li |-> Fn(D(5, 4), One, D(5, 4), One),          bi |-> Fn(D(2, 1), D(5, 4), One, One)],
      [px |-> Fn(D(600, 1),  One, D(101, 100), D(2, 1)), li |-> Fn(D(5, 4), D(5, 4), D(5, 4), D(2, 1)), bi |-> Fn(D(2, 1), D(5, 2), D(5, 4), One)],
      [px |-> Fn(D(300, 1),  One, One, D(3, 1)),       li |-> Fn(D(2, 1), D(5, 4), D(5, 2), D(2, 1)),  bi |-> Fn(D(5, 2), D(5, 2), D(2, 1), One)] >>
   \o (IF Level > 1 THEN
@@ -66,7 +76,7 @@ AllEvents(s) ==
   \cup {[op |-> "setcoll", t |-> t, c |-> c] : t \in TokensDef \ {"XTK"}, c \in BOOLEAN}
   \cup {[op |-> "update"]}
   \cup {[op |-> "read", v |-> i] : i \in 0 .. 2}
-  \cup {[op |-> "nextbar", row |-> r] : r \in (s.row + 1) .. Len(RowsDef)}
+  \cup {[op |-> "nextbar", row |-> r] : r \in ((s.row + 1) .. Len(RowsDef)) \ EdgeIdx}
 
 (* initial scenarios: event prefixes applied to the empty account (the harness applies the same prefix to the code) *)
 Sup(t, a, c) == [op |-> "supply", t |-> t, a |-> a, c |-> c]
